@@ -114,6 +114,17 @@ def run_api(vec, variant):
     try:
         data_format.validate()
     except errors.InterfaceError:
+        # "contradictory settings are refused": every time the format is completed, and it never counts as valid
+        try:
+            data_format.validate()
+            again = "accepted"
+        except errors.InterfaceError:
+            again = "refused"
+        except Exception as error:  # noqa
+            again = "%s: %s" % (type(error).__name__, error)
+        if again != "refused" or data_format.is_valid:
+            return "crash", len(vec["settings"]), None, "the contradictory format was refused by validate(); asked again it is %s, is_valid is %r" % (
+                again, data_format.is_valid), encoding
         return "inconsistent", len(vec["settings"]), project(data_format), None, encoding
     except Exception as error:  # noqa
         return "crash", len(vec["settings"]), None, "%s: %s (validate)" % (type(error).__name__, error), encoding
@@ -134,6 +145,8 @@ def run_cid(vec, variant):
         cid.read("cid", rows)
     except errors.InterfaceError as error:
         line = error.location.line + 1 if hasattr(error.location, "line") else 0
+        if cid.data_format is not None and cid.data_format.is_valid and vec["status"] == "inconsistent":
+            return "crash", 0, None, "the CID was refused (%s) but its data format counts as valid (rows %r)" % (error, rows)
         return "error", line, None, None
     except Exception as error:  # noqa
         return "crash", 0, None, "%s: %s (rows %r)" % (type(error).__name__, error, rows)
